@@ -294,6 +294,16 @@ func RunParent(chk *Check, opt Options) int {
 	}
 	wg.Wait()
 
+	// Race reports that are verdicts for this property.
+	if chk.Race && chk.RaceIsViolation != nil {
+		for pair, cnt := range racePairs {
+			if chk.RaceIsViolation(pair) {
+				violations = append(violations, Violation{Property: chk.ID, Fingerprint: chk.ID + "/data-race/" + pair,
+					What: fmt.Sprintf("the race detector reported %d data race(s) between %s", cnt, pair), Tier: opt.Tier, Seed: opt.Seed, Case: -1})
+			}
+		}
+	}
+
 	// Verdicts.
 	findings := LoadFindings(root)
 	sort.Slice(violations, func(i, j int) bool {
